@@ -11,12 +11,12 @@ DESIGN_REF = "DESIGN.md §3 C06"
 RULE = (
     "Hypothesis multigraphs (<= 8 vertices, <= 14 links of 6 classes: cycles, self-loops, parallel and mixed-class "
     "links, disconnected parts), a universe = ordered subset of the vertices or None (so linked non-members exist), "
-    "start = any member, 3 directions x 3 unknown-handling modes, ff_via as a truth table over (link, vertex), "
+    "start = any member, the universe optionally padded with 40 / 1000 isolated members,  3 directions x 3 unknown-handling modes, ff_via as a truth table over (link, vertex), "
     "ff_result as a truth table over vertices.  For bft, dft_recursive, dft_iterative: terminates (deterministic "
     "step budget on neighbors() calls), no repeats, first element is start, set(out) == least-fixpoint "
-    "reachability computed independently, generator form == list form element by element, with ff_result the "
+    "reachability computed independently, generator form == list form element by element (also when the generator is consumed partly, other traversals run, and it is then resumed), with ff_result the "
     "output == the unfiltered output restricted to accepted vertices; NotImplementedError exactly when a reached "
-    "vertex carries an unknown-class link under LNK_UNKNOWN_ERROR.  Non-trivial = reach set >= 3 vertices and "
+    "vertex carries an unknown-class link under LNK_UNKNOWN_ERROR.  Every case is evaluated a second time on the same objects after a membership swap (one member out, one non-member in; no link touched).  Non-trivial = reach set >= 3 vertices and "
     "(a cycle among reached vertices, or a reached vertex has a non-member neighbour, or ff_via prunes a link at a "
     "reached vertex); distinct = distinct case value."
 )
@@ -32,7 +32,7 @@ TECHNIQUE = "Hypothesis multigraph generation vs. fixpoint-reachability oracle; 
 
 def budget(tier):
     if tier == "quick":
-        return dict(shards=16, examples=3000, time_s=50)
+        return dict(shards=16, examples=1500, time_s=55)
     return dict(shards=16, examples=80000, time_s=850)
 
 
@@ -46,13 +46,23 @@ def check_case(case):
 
 
 def _check_case(case):
+    S = trav.Setup(case)
+    info = _check_on(S, case)
+    if S.apply_swap():
+        # the same objects after a membership swap (no link touched): everything must hold again
+        info2 = _check_on(S, case)
+        info["classes"] = sorted(set(info["classes"]) | {"after-membership-swap"})
+        info["nt"] = info["nt"] or info2["nt"]
+    return info
+
+
+def _check_on(S, case):
     from edgegraph.traversal import breadthfirst as B
     from edgegraph.traversal import depthfirst as D
 
-    S = trav.Setup(case)
     verdict, R = S.expectation()
     n = len(S.vs)
-    classes = {"caching-on" if case.get("cache") else "caching-off", f"dir{S.d}", f"unk{S.u}", "universe" if S.uni is not None else "no-universe", "expect-" + verdict}
+    classes = {"caching-on" if case.get("cache") else "caching-off", f"dir{S.d}", f"unk{S.u}", f"pad{case.get('pad', 0)}", "universe" if S.uni is not None else "no-universe", "expect-" + verdict}
     outs = {}
     for name, fn, gen in (
         ("bft", B.bft, B.ibft),
@@ -83,6 +93,19 @@ def _check_case(case):
         with trav.neighbor_budget(4 * n + 8):
             lst = S.idx(fn(S.uni, S.vs[S.start], **S.kw()))
         require(lst == out, "generator-list-disagree", f"{name}: list {lst} generator {out}")
+        # a partly consumed generator must not be disturbed by other traversals run in between
+        k = case.get("take", 0)
+        if k and len(out) > k:
+            with trav.neighbor_budget(12 * n + 24):
+                g = gen(S.uni, S.vs[S.start], **S.kw())
+                head = [next(g) for _ in range(k)]
+                for other in (B.bft, D.dft_recursive, D.dft_iterative):
+                    other(S.uni, S.vs[S.start], **S.kw())
+                    if len(out) > 1:
+                        other(S.uni, S.vs[out[-1]], **S.kw())
+                tail = trav.bounded_list(g, n + 1, name + " resumed generator")
+            mixed = S.idx(head + tail)
+            require(mixed == out, "interleaved-generator-disturbed", f"{name}: {k} items, other traversals, then the rest gives {mixed}; uninterrupted {out}")
         if S.rf is not None:
             with trav.neighbor_budget(4 * n + 8):
                 try:
@@ -125,4 +148,6 @@ def _check_case(case):
             classes.add("non-member-neighbour")
         if prune:
             classes.add("via-filter-prunes")
+    if case.get("take"):
+        classes.add("interleaved-generators")
     return dict(nt=nt, classes=sorted(classes))
